@@ -157,8 +157,15 @@ def observed_outcome(res):
     return dict(kind="differs", fields=diff, core=b)
 
 
+def explains(pred, obs):
+    if pred["kind"] != obs["kind"]:
+        return False
+    return obs["kind"] != "differs" or core_of_spec(pred) == obs["core"]
+
+
 def judge_text(ctx, tag, m_core, res, pred, blame, switches, stats, label):
-    """property: outcome must be 'same'.  A failure is known only if the spec, with the listed deviations, predicts it."""
+    """property: outcome must be 'same'.  A failure is known only if the spec, with listed deviations, predicts it.
+    Failures that RT(m, Dev) does not predict are queued for the second pass (resolve_pending)."""
     obs = observed_outcome(res)
     stats["total"] += 1
     if obs["kind"] == "same":
@@ -166,36 +173,62 @@ def judge_text(ctx, tag, m_core, res, pred, blame, switches, stats, label):
             stats["stale"].append(label)          # a listed deviation no longer shows: cue to mark it fixed
         return
     stats["failed"] += 1
-    explained = False
-    if pred["kind"] == obs["kind"] and blame:
-        if obs["kind"] == "refused":
-            explained = True
-        else:
-            explained = core_of_spec(pred) == obs["core"]
-    if explained and all(d in switches for d in blame):
+    if blame and explains(pred, obs) and all(d in switches for d in blame):
         for d in blame:
-            ctx.known(switches[d], "asm(disasm(m)) %s: %s; first witness %s" % (
-                obs["kind"], d, label))
+            ctx.known(switches[d], "asm(disasm(m)) %s: %s; first witness %s" % (obs["kind"], d, label))
             stats["known"][d] = stats["known"].get(d, 0) + 1
         return
-    stats["violations"] += 1
-    if stats["violations"] <= 6:
-        art = dict(kind="text", tag=tag, label=label, module=m_core, observed=obs,
-                   predicted=dict(kind=pred["kind"], blame=sorted(blame)), text=res.get("text"))
-        path = ctx.save_replay("text-%s-%s.json" % (tag, sha(json.dumps(m_core))), json.dumps(art, indent=1))
-        ctx.violation("asm_assemble(disasm_module(m)) != m (%s, %s): observed %s %s, spec with known deviations predicts %s" % (
-            tag, label, obs["kind"], obs.get("why") or obs.get("fields"), pred["kind"]), path)
+    stats["pending"].append(dict(tag=tag, label=label, module=m_core, res=res, obs=obs, pred=pred, blame=blame))
 
 
-def text_constants(ctx, switches, real_file=""):
+def resolve_pending(ctx, mc, switches, stats):
+    """second TLC pass: is the observed failure RT(m, D) for some subset D of the listed deviations?"""
+    pend = stats["pending"]
+    if not pend:
+        return
+    alts = {}
+    todo = [q for q in pend if "strings" in q["module"]][:200]
+    if todo and switches:
+        f = os.path.join(ctx.dir("text"), "c11_pending_%d.ndjson" % len(ctx.tlc_runs))
+        with open(f, "w") as fh:
+            for q in todo:
+                fh.write(json.dumps(q["module"]) + "\n")
+        r = tlc(ctx, "NanoISA_MC", cfg="NanoISAText", workers=workers(ctx), timeout=1700, cwd_files=[mc, f],
+                constants=text_constants(ctx, switches, os.path.basename(f), alts=True), xss="900m")
+        if r.violated:
+            raise InfraError("NanoISAText.tla second pass: %s\n%s" % (r.violated, r.out[-2000:]))
+        alts = {v["idx"]: v["alts"] for v in r.records}
+    for k, q in enumerate(todo):
+        q["alts"] = sorted(alts.get(k + 1, []), key=lambda a: len(a["dev"]))
+    for q in pend:
+        hit = next((a for a in q.get("alts", []) if a["blame"] and explains(a["pred"], q["obs"])
+                    and all(d in switches for d in a["blame"])), None)
+        if hit:
+            for d in hit["blame"]:
+                ctx.known(switches[d], "asm(disasm(m)) %s: %s; first witness %s" % (q["obs"]["kind"], d, q["label"]))
+                stats["known"][d] = stats["known"].get(d, 0) + 1
+            stats["second_pass_explained"] = stats.get("second_pass_explained", 0) + 1
+            continue
+        stats["violations"] += 1
+        if stats["violations"] <= 6:
+            art = dict(kind="text", tag=q["tag"], label=q["label"], module=q["module"], observed=q["obs"],
+                       predicted=dict(kind=q["pred"]["kind"], blame=sorted(q["blame"])), text=q["res"].get("text"))
+            path = ctx.save_replay("text-%s-%s.json" % (q["tag"], sha(json.dumps(q["module"], sort_keys=True))), json.dumps(art, indent=1))
+            ctx.violation("asm_assemble(disasm_module(m)) != m (%s, %s): observed %s %s; no subset of the listed deviations predicts it "
+                          "(all of them together predict %s)" % (q["tag"], q["label"], q["obs"]["kind"],
+                                                                 q["obs"].get("why") or q["obs"].get("fields"), q["pred"]["kind"]), path)
+    stats["pending"] = []
+
+
+def text_constants(ctx, switches, real_file="", alts=False):
     deep = ctx.tier == "thorough"
     return {"Dev": "{" + ", ".join('"%s"' % d for d in sorted(switches)) + "}",
             "MaxBody": "3", "MaxHostile": "3" if deep else "2",
-            "RealFile": '"%s"' % real_file}
+            "RealFile": '"%s"' % real_file, "Alts": "TRUE" if alts else "FALSE"}
 
 
 def new_stats():
-    return dict(total=0, failed=0, violations=0, known={}, stale=[])
+    return dict(total=0, failed=0, violations=0, known={}, stale=[], pending=[])
 
 
 def run_text_generated(ctx, probe, mc, switches, cov):
@@ -237,7 +270,8 @@ def run_text_generated(ctx, probe, mc, switches, cov):
             raise InfraError("module %d was not built as specified by the probe" % i)
         judge_text(ctx, c["fam"], core, res, c["pred"], c["blame"], switches, stats,
                    "%s code=%s strings=%s" % (c["fam"], hexs(c["m"]["code"])[:80], [hexs(x)[:40] for x in c["m"]["strings"]]))
-    cov["text_generated"] = dict(modules=len(cases), by_family=fams, distinct=len(distinct), failed=stats["failed"],
+    resolve_pending(ctx, mc, switches, stats)
+    cov["text_generated"] = dict(second_pass_explained=stats.get("second_pass_explained", 0), modules=len(cases), by_family=fams, distinct=len(distinct), failed=stats["failed"],
                                  known_by_switch=stats["known"], violations=stats["violations"],
                                  predicted_failure_not_observed=len(stats["stale"]), stale_samples=stats["stale"][:5],
                                  states=r.distinct, transitions=r.generated)
@@ -297,8 +331,9 @@ def run_text_real(ctx, probe, tree, mc, switches, cov):
             raise InfraError("no spec verdict for %s" % src)
         if pick["ideal"] != "same":
             raise InfraError("the deviation-free text model is not the identity on %s" % src)
-        judge_text(ctx, "real", dict(source=src), x, pick["pred"], pick["blame"], switches, stats, os.path.relpath(src, VERIF) if src.startswith(VERIF) else src)
-    cov["text_real"] = dict(modules=len(files), skipped_not_compilable=len(skipped), failed=stats["failed"],
+        judge_text(ctx, "real", dict(core_of_dump(x["m"]), source=src), x, pick["pred"], pick["blame"], switches, stats, os.path.relpath(src, VERIF) if src.startswith(VERIF) else src)
+    resolve_pending(ctx, mc, switches, stats)
+    cov["text_real"] = dict(second_pass_explained=stats.get("second_pass_explained", 0), modules=len(files), skipped_not_compilable=len(skipped), failed=stats["failed"],
                             known_by_switch=stats["known"], violations=stats["violations"],
                             code_bytes=sum(len(core_of_dump(x["m"])["code"]) for x in results),
                             states=r.distinct, transitions=r.generated)
@@ -322,3 +357,41 @@ def run(ctx):
                exhaustive=True)
     return "model_checking", cov, ["the opcode table reported by isa_get_info and the enum in isa.h are the only "
                                    "sources of the constants"]
+
+
+def replay(ctx, path):
+    """./check C11 --replay <artifact>: re-run one saved case against the current tree (property only, no suppression)"""
+    art = json.load(open(path))
+    probe = ctx.probe("isa_probe")
+    d = ctx.dir("replay")
+    if art.get("kind") == "codec":
+        c = art["case"]
+        inp = os.path.join(d, "case.ndjson")
+        with open(inp, "w") as f:
+            f.write(json.dumps(dict(id=0, t=c["t"], op=c["op"], args=c["args"], bytes=c["bytes"])) + "\n")
+        res = json.loads(sh([probe, "cases", inp], env=ctx.env()).stdout.splitlines()[0])
+        bad, _ = judge_codec_case(c, res)
+        print(json.dumps(dict(case=c, observed=res, violated=bad), indent=1))
+        if bad:
+            ctx.violation("codec: " + bad[0], path)
+    elif art.get("kind") == "text":
+        m = art["module"]
+        if "strings" in m:
+            inp = os.path.join(d, "module.ndjson")
+            with open(inp, "w") as f:
+                f.write(json.dumps(dict(id=0, strings=m["strings"], functions=m["functions"], code=m["code"], flags=1, entry=0)) + "\n")
+            res = json.loads(sh([probe, "rt", inp], env=ctx.env()).stdout.splitlines()[0])
+        else:
+            tree = os.path.dirname(os.path.dirname(probe))
+            o = os.path.join(d, "p.nvm")
+            sh([os.path.join(tree, "bin", "nano_virt"), m["source"], "--emit-nvm", "-o", o], cwd=d, env=ctx.env())
+            res = json.loads(sh([probe, "rtfile", o], env=ctx.env()).stdout.splitlines()[0])
+        obs = observed_outcome(res)
+        print(res.get("text", ""))
+        print(json.dumps({k: v for k, v in obs.items() if k != "core"}, indent=1))
+        if obs["kind"] != "same":
+            ctx.violation("asm_assemble(disasm_module(m)) != m: %s %s" % (obs["kind"], obs.get("why") or obs.get("fields")), path)
+    else:
+        print(open(path).read())
+        raise InfraError("not a C11 replay artifact: %s" % path)
+    return 1 if ctx.violations else 0
